@@ -52,6 +52,7 @@ func main() {
 	workers := flag.Int("workers", 0, "node processes (default: cores-2)")
 	dump := flag.String("dump", "", "debug: write generated programs to this file")
 	doShrink := flag.Bool("shrink", false, "witness mode: also shrink a failing witness (triage aid)")
+	casesKind := flag.String("cases", "all", "model correspondence data to write: rename | print | all")
 	flag.Parse()
 	if *outDir == "" {
 		fmt.Fprintln(os.Stderr, "jsoracle: -out is required")
@@ -96,7 +97,7 @@ func main() {
 		}
 	} else {
 		runGeneration(ev, res, *seed, *n, *tier, *known, nw, *dump)
-		runRename(res, *seed, *n, *known, *outDir)
+		runRename(res, *seed, *n, *known, *outDir, *casesKind)
 	}
 	res.Extra["wall_seconds"] = time.Since(start).Seconds()
 	res.Extra["node_workers"] = nw
@@ -204,6 +205,9 @@ func chooseConfigs(r *vh.Rand, prog program) []config {
 	return cfgs
 }
 
+var fixedInRepo = map[string]bool{"K06": true, "K08": true, "K10": true, "K11": true, "K12": true, "K13": true, "K37": true, "K38": true,
+	"N03": true, "N04": true, "N07": true, "N08": true, "N10": true}
+
 func runGeneration(ev *evaluator, res *vh.Result, seed uint64, n int, tier string, known bool, nw int, dump string) {
 	master := vh.NewRand(seed)
 	cases := make([]*caseResult, n)
@@ -216,6 +220,14 @@ func runGeneration(ev *evaluator, res *vh.Result, seed uint64, n int, tier strin
 				break
 			}
 			ids := scanKnown(prog.Text)
+			// findings repaired in /repo: their shapes belong to the default stream again
+			kept := ids[:0]
+			for _, id := range ids {
+				if !fixedInRepo[id] {
+					kept = append(kept, id)
+				}
+			}
+			ids = kept
 			if len(ids) == 0 || len(ids) == 1 && ids[0] == "K14" && prog.HasWith {
 				break
 			}
